@@ -106,6 +106,7 @@ type Event struct {
 	Bounded  string // REP: how the trip count is bounded ("counted", "range", "" = unrecognised)
 	Inv      *Val   // REP: a relation that holds at the start of every iteration (counter within its bound), or nil
 	Deferred bool
+	Once     bool // the event belongs to the body of a sync.Once.Do (it happened here or in whichever goroutine came first)
 }
 
 func (e *Event) String() string {
